@@ -122,6 +122,12 @@ func nextCloserDeniedWithWork(
 	for _, rr := range nsecSet {
 		n := rr.(*dns.NSEC)
 		if nsecCovers(n.Header().Name, n.NextDomain, nextCloser) {
+			if nsecProvesENT(n, nextCloser) {
+				// The span's next name lies below the next closer name: that
+				// name is an empty non-terminal, it exists, and a closer
+				// match than the wildcard's parent does too (RFC 4592 §3.3.1).
+				continue
+			}
 			return true, true, nil
 		}
 	}
